@@ -67,7 +67,9 @@ def schema_text(rng):
 def pom_text(rng):
     vals = [b"${a}", b"${b}", b"${project.version}", b"${a${b}}", b"${", b"}", b"1.0", b"[1.0,2.0)", b"x", b"${parent.version}", b"true", b"false", b"",
             b"${c}", b"import", b"pom", b"test", b"jar", b"*"]
-    v = lambda: rng.choice(vals)
+    frags = [b"}", b"${", b"${a}", b"${b}", b"{0}-", b"$", b"{", b"x", b"}}", b"$${a}", b"${}", b"${a", b"-", b"${project.version}", b"1"]
+    # a value is a token or a run of fragments: delimiters in any order (a closing brace before the next opening one, ...)
+    v = lambda: rng.choice(vals) if rng.random() < 0.7 else b"".join(rng.choice(frags) for _ in range(rng.randrange(2, 5)))
     props = b"".join(b"<%s>%s</%s>" % (k, v(), k) for k in rng.sample([b"a", b"b", b"c", b"d"], rng.randrange(0, 4)))
     def dep():
         return (b"<dependency><groupId>%s</groupId><artifactId>%s</artifactId><version>%s</version><scope>%s</scope>"
